@@ -1039,6 +1039,15 @@ func init() {
 				if p, ok := rd.v.(*Value); ok && p != nil {
 					data, got = ex.strToByteSlice((*p).(Struct)[0].(Str)), true
 				}
+			case "*os.File":
+				// a file of the harness' file-system model: its bytes are asked from the model
+				if fp := ex.w.P.ssaPkgs[vrPkgPath+"/fskit"]; fp != nil {
+					if fb := fp.Func("FileBytes"); fb != nil {
+						if sl, ok := ex.callFunction(fb, []Value{rd.v}, nil, nil).(Slice); ok {
+							data, got = sl, true
+						}
+					}
+				}
 			}
 		}
 		if !got {
